@@ -1,8 +1,10 @@
 package iolib
 
 import (
+	"bufio"
 	"errors"
 	"io"
+	"strings"
 
 	rt "github.com/arnodel/golua/runtime"
 )
@@ -40,7 +42,11 @@ func fileread(t *rt.Thread, c *rt.GoCont) (rt.Cont, error) {
 	return next, nil
 }
 
-type formatReader func(*File) (rt.Value, error)
+type formatReader func(*rt.Runtime, *File) (rt.Value, error)
+
+// readChunk is the most that is read from a file before the memory for it has
+// been required from the runtime.
+const readChunk = 1 << 16
 
 var errInvalidFormat = errors.New("invalid format")
 var errFormatOutOfRange = errors.New("format out of range")
@@ -50,13 +56,13 @@ func getFormatReader(fmt rt.Value) (reader formatReader, err error) {
 		if n < 0 {
 			return nil, errFormatOutOfRange
 		}
-		reader = func(f *File) (rt.Value, error) { return f.Read(int(n)) }
+		reader = func(r *rt.Runtime, f *File) (rt.Value, error) { return readBytes(r, f, int(n)) }
 	} else if s, ok := fmt.TryString(); ok && len(s) > 0 {
 		switch s {
 		case "n", "*n":
-			reader = (*File).ReadNumber
+			reader = func(r *rt.Runtime, f *File) (rt.Value, error) { return f.ReadNumber() }
 		case "a", "*a", "all":
-			reader = (*File).ReadAll
+			reader = readAll
 		case "l", "*l":
 			reader = lineReader(false)
 		case "L", "*L":
@@ -90,7 +96,7 @@ func read(r *rt.Runtime, f *File, readers []formatReader, next rt.Cont) error {
 		readers = []formatReader{lineReader(false)}
 	}
 	for i, reader := range readers {
-		val, readErr := reader(f)
+		val, readErr := reader(r, f)
 		if readErr == nil {
 			r.Push1(next, val)
 		} else if i == 0 || readErr != io.EOF {
@@ -101,7 +107,97 @@ func read(r *rt.Runtime, f *File, readers []formatReader, next rt.Cont) error {
 }
 
 func lineReader(withEnd bool) formatReader {
-	return func(f *File) (rt.Value, error) {
-		return f.ReadLine(withEnd)
+	return func(r *rt.Runtime, f *File) (rt.Value, error) {
+		return readLine(r, f, withEnd)
 	}
+}
+
+// readBytes reads up to n bytes from f.  The memory for the result is required
+// from the runtime before it is allocated, at most readChunk bytes at a time, so
+// that the size asked for by the program cannot exceed the memory limit.
+func readBytes(r *rt.Runtime, f *File, n int) (rt.Value, error) {
+	if n <= readChunk {
+		r.RequireBytes(n)
+		v, err := f.Read(n)
+		if s, ok := v.TryString(); ok {
+			r.ReleaseBytes(n - len(s))
+		} else {
+			r.ReleaseBytes(n)
+		}
+		return v, err
+	}
+	var sb strings.Builder
+	for n > 0 {
+		k := n
+		if k > readChunk {
+			k = readChunk
+		}
+		r.RequireBytes(k)
+		v, err := f.Read(k)
+		s, _ := v.TryString()
+		r.ReleaseBytes(k - len(s))
+		if err != nil {
+			if err == io.EOF && sb.Len() > 0 {
+				break
+			}
+			return rt.NilValue, err
+		}
+		sb.WriteString(s)
+		if len(s) < k {
+			break
+		}
+		n -= k
+	}
+	return rt.StringValue(sb.String()), nil
+}
+
+// readAll reads the rest of f, requiring memory as it goes.
+func readAll(r *rt.Runtime, f *File) (rt.Value, error) {
+	var sb strings.Builder
+	for {
+		v, err := readBytes(r, f, readChunk)
+		if err == io.EOF {
+			break
+		}
+		if err != nil {
+			return rt.NilValue, err
+		}
+		s, _ := v.TryString()
+		sb.WriteString(s)
+		if len(s) < readChunk {
+			break
+		}
+	}
+	return rt.StringValue(sb.String()), nil
+}
+
+// readLine reads a line from f like (*File).ReadLine, but in pieces no larger
+// than the file's buffer, requiring the memory for each piece, so that a source
+// without line ends cannot grow the line beyond the memory limit.
+func readLine(r *rt.Runtime, f *File, withEnd bool) (rt.Value, error) {
+	var line []byte
+	for {
+		frag, err := f.reader.ReadSlice('\n')
+		r.RequireBytes(len(frag))
+		line = append(line, frag...)
+		if err == bufio.ErrBufferFull {
+			continue
+		}
+		if err != nil && err != io.EOF {
+			return rt.NilValue, err
+		}
+		if len(line) == 0 {
+			return rt.NilValue, err
+		}
+		break
+	}
+	l := len(line)
+	if !withEnd && line[l-1] == '\n' {
+		l--
+		if l > 1 && line[l-1] == '\r' {
+			l--
+		}
+		line = line[:l]
+	}
+	return rt.StringValue(string(line)), nil
 }
